@@ -211,6 +211,12 @@ func tLt(a, b *Term) *Term {
 			return tNot(tLt(b.Args[0], a))
 		}
 	}
+	// x - 1 < y  <=>  !(y < x)   (signed integers; positions and counts)
+	if a.Op == "bin" && a.Aux == "-" && !isUnsignedTerm(a) {
+		if c, ok := termInt(a.Args[1]); ok && c == 1 {
+			return tNot(tLt(b, a.Args[0]))
+		}
+	}
 	return mk("lt", "", types.Typ[types.Bool], a, b)
 }
 
